@@ -1,17 +1,19 @@
-(* C03 proofs, part 5: the unqualified render statement is false of the faithful model — one computed witness per
-   known-gap family — and examples showing the hypotheses of the theorems are satisfiable by non-trivial inputs. *)
+(* C03 proofs, part 5: the unqualified statements are false of the faithful model of the unrepaired printer — one computed
+   witness per known-gap family; with every repair the same witnesses are inside the theorem's domain; examples showing the
+   hypotheses of the theorems are satisfiable by non-trivial inputs; the generated precedence table is the model's. *)
 From Coq Require Import List ZArith String Ascii Bool Arith Lia.
-From Verif Require Import Lib.Sexp Model.C03_ops Gen.C03_tables Model.C03_expr Model.C03_spec
+From Verif Require Import Lib.Sexp Model.C03_ops Gen.C03_tables Model.C03_expr Model.C03_spec Model.C03_run
   Proofs.C03_ind Proofs.C03_iter Proofs.C03_rule Proofs.C03_render Proofs.C03_names.
 Import ListNotations.
 Open Scope string_scope. Open Scope list_scope. Open Scope nat_scope.
 
 (* the statement one would like: for every well-formed tree, Griffe's text is the reference text *)
-Definition render_claim (top : nat) (e : pyexpr) : Prop :=
-  exists g, build ctx0 e = Some g /\ render g = ref_top top e.
+Definition render_claim (fx : fixes) (top : nat) (e : pyexpr) : Prop :=
+  exists g, build fx [] ctx0 e = Some g /\ render fx g = ref_top top e.
 
+(* e is in gap family fam of the printer without repairs, and the claim fails there *)
 Definition refutes (fam : nat) (e : pyexpr) : Prop :=
-  wf e = true /\ In fam (gaps_top P_TEST e) /\ ~ render_claim P_TEST e.
+  wf e = true /\ In fam (gaps_top fx_none P_TEST e) /\ ~ render_claim fx_none P_TEST e.
 
 Ltac refute :=
   split; [reflexivity|split; [vm_compute; tauto|]];
@@ -27,6 +29,9 @@ Lemma refuted_F1 : refutes G_GROUP w_F1. Proof. refute. Qed.
 (* f'{a}{'{'}' : literal brace not doubled *)
 Definition w_F3 := PJoinedStr [PFormattedValue a (-1) None; PStr "'{'" "{" None].
 Lemma refuted_F3 : refutes G_FSTRING w_F3. Proof. refute. Qed.
+(* f'{a!r:>{b}}'  ->  f'{a}' : conversion and format spec dropped *)
+Definition w_F3b := PJoinedStr [PFormattedValue a 114 (Some (PJoinedStr [PStr "'>'" ">" None; PFormattedValue b (-1) None]))].
+Lemma refuted_F3b : refutes G_FSTRING w_F3b. Proof. refute. Qed.
 (* lambda *a, k: 0  ->  lambda *a, *, k: 0 *)
 Definition w_F4 := PLambda [] [] (Some "a") [PParam "k" None] None (PNum true "0").
 Lemma refuted_F4 : refutes G_LAMBDA w_F4. Proof. refute. Qed.
@@ -48,51 +53,117 @@ Lemma refuted_F9 : refutes G_INT_ATTR w_F9. Proof. refute. Qed.
 (* f(await x): nothing is stored *)
 Definition w_F10 := PCall (PName "f") [PAwait (PName "x")] [].
 Lemma refuted_F10 : refutes G_AWAIT w_F10. Proof. refute. Qed.
-(* repaired defects (F2 dict unpacking, F5 dict comprehension spacing, F11 in_subscript leak, F12 non-finite literals):
-   their former witnesses are now inside the theorem's domain and render exactly as the reference printer does *)
+
+(* F14: f().typing.Literal["int"] -- the unrepaired _build_subscript takes the chain for typing.Literal and keeps the string,
+   although the rule (and the repaired code) parses it *)
+Definition w_F14 := PSubscript (PAttribute (PAttribute (PCall (PName "f") [] []) "typing") "Literal") false
+                               (PStr "'int'" "int" (Some (PName "int"))).
+Definition pctx := mkCtx (Parse false) false false false.
+Lemma rule_refuted_F14 :
+  no_parsed w_F14 = true /\ rule_ok false w_F14 = false /\
+  build fx_none [] pctx w_F14 <> build fx_none [] ctx0 (subst fx_none [] (Parse false) false false w_F14) /\
+  build fx_all [] pctx w_F14 = build fx_all [] ctx0 (subst fx_all [] (Parse false) false false w_F14).
+Proof. repeat split; try reflexivity. vm_compute. discriminate. Qed.
+
+(* with every repair: the witnesses of the repaired families are inside the theorem's domain and render exactly as the
+   reference printer does; so do the witnesses of the defects repaired earlier (F2 dict unpacking, F5 dict comprehension
+   spacing, F11 in_subscript leak, F12 non-finite literals) *)
 Definition w_F2 := PDict [PDictItem None a].
 Definition w_F5 := PDictComp a b [comp1].
 Definition w_F11 := PSubscript a false (PCall (PName "f") [PTuple [PNum true "1"; PNum true "2"]] []).
 Definition w_F12 := PList [PNum false "inf"; PNum false "infj"; PNum false "1.5"; PNum true "7"].
 Example repaired_witnesses_gapfree :
-  forallb (fun e => wf e && negb (known_gap P_TEST e)) [w_F2; w_F5; w_F11; w_F12] = true.
-Proof. reflexivity. Qed.
+  forallb (fun e => wf e && negb (known_gap fx_all P_TEST e))
+          [w_F1; w_F3; w_F3b; w_F4; w_F4b; w_F6; w_F7; w_F8; w_F9; w_F2; w_F5; w_F11; w_F12] = true
+  /\ forallb (fun e => wf e && negb (known_gap fx_none P_TEST e)) [w_F2; w_F5; w_F11; w_F12] = true.
+Proof. split; reflexivity. Qed.
 Example repaired_witnesses_text :
-  map (fun e => option_map render (build ctx0 e)) [w_F2; w_F5; w_F11; w_F12]
+  map (fun e => option_map (render fx_all) (build fx_all [] ctx0 e)) [w_F1; w_F3; w_F3b; w_F4; w_F4b; w_F6; w_F7; w_F8; w_F9]
+  = [Some "(a + b) * c"; Some "f'{a}{{'"; Some "f'{a!r:>{b}}'"; Some "lambda *a, k: 0"; Some "lambda p, /: 0";
+     Some "(x for x in y)"; Some "a[()]"; Some "[(yield)]"; Some "(1).real"]
+  /\ map (fun e => option_map (render fx_none) (build fx_none [] ctx0 e)) [w_F2; w_F5; w_F11; w_F12]
   = [Some "{**a}"; Some "{a: b for x in y}"; Some "a[f((1, 2))]"; Some "[1e309, 1e309j, 1.5, 7]"].
-Proof. reflexivity. Qed.
+Proof. split; reflexivity. Qed.
 
-Theorem render_claim_refuted : exists e, wf e = true /\ ~ render_claim P_TEST e.
+Theorem render_claim_refuted : exists e, wf e = true /\ ~ render_claim fx_none P_TEST e.
 Proof. exists w_F1. destruct refuted_F1 as [H [_ H']]. split; assumption. Qed.
 
 (* ---------- the hypotheses are satisfiable by non-trivial inputs ---------- *)
-(* an if-expression over a subscript with slice, a comparison, and a call with starred argument and a lambda keyword: gap-free *)
+(* an if-expression over a subscript with slice, a comparison, and a call with starred argument and a lambda keyword: gap-free
+   even for the printer without repairs *)
 Definition ex_big :=
   PIfExp (PSubscript (PAttribute a "b") false (PTuple [c; PSlice (Some (PName "x")) (Some (PName "y")) None]))
          (PUnaryOp U_Not (PCompare a [C_Lt] [b]))
          (PCall (PName "f") [PStarred c]
             [PKeyword (Some "k") (PLambda [PParam "p" None] [PParam "q" (Some (PNum true "1"))] None [PParam "r" None] None
                                           (PBinOp (PName "p") B_Pow (PUnaryOp U_USub (PName "q"))))]).
-Example ex_big_gapfree : wf ex_big = true /\ known_gap P_TEST ex_big = false. Proof. split; reflexivity. Qed.
+Example ex_big_gapfree : wf ex_big = true /\ known_gap fx_none P_TEST ex_big = false /\ known_gap fx_all P_TEST ex_big = false.
+Proof. repeat split; reflexivity. Qed.
 Example ex_big_text :
-  option_map render (build ctx0 ex_big) = Some "a.b[c, x:y] if not a < b else f(*c, k=lambda p, /, q=1, *, r: p ** -q)".
-Proof. reflexivity. Qed.
+  option_map (render fx_none) (build fx_none [] ctx0 ex_big) = Some "a.b[c, x:y] if not a < b else f(*c, k=lambda p, /, q=1, *, r: p ** -q)"
+  /\ option_map (render fx_all) (build fx_all [] ctx0 ex_big) = Some "a.b[c, x:y] if not a < b else f(*c, k=lambda p, /, q=1, *, r: p ** -q)".
+Proof. split; reflexivity. Qed.
 
-(* Optional["List['int']"] as an annotation: the outer string is code, the inner one stays a string; Literal["x"] keeps its string *)
+(* nested operators, a generator expression as sole argument, an f-string with conversion, nested spec and escapes:
+   in the domain of the theorem for the repaired printer only *)
+Definition ex_rep :=
+  PBinOp (PBoolOp L_Or [a; PIfExp b c a]) B_Mult
+         (PCall (PName "f") [PGeneratorExp (PUnaryOp U_USub (PBinOp a B_Pow b)) [comp1]] []).
+Definition ex_fstr :=
+  PJoinedStr [PStr "'it''s {'" "it's {" None; PFormattedValue (PDict [PDictItem (Some a) b]) 114
+                (Some (PJoinedStr [PStr "'>'" ">" None; PFormattedValue (PName "w") (-1) None]))].
+Example ex_rep_text :
+  wf ex_rep = true /\ known_gap fx_all P_TEST ex_rep = false /\ known_gap fx_none P_TEST ex_rep = true /\
+  option_map (render fx_all) (build fx_all [] ctx0 ex_rep) = Some "(a or (b if c else a)) * f(-a ** b for x in y)" /\
+  wf ex_fstr = true /\ known_gap fx_all P_TEST ex_fstr = false /\
+  option_map (render fx_all) (build fx_all [] ctx0 ex_fstr) = Some "f'it\'s {{{ {a: b}!r:>{w}}'".
+Proof. repeat split; reflexivity. Qed.
+
+(* Optional["List['int']"] as an annotation: the outer string is code, the inner one stays a string; Literal["x"] keeps its
+   string when the module binds Literal to typing.Literal -- and does not when it binds it to something else *)
 Definition ex_ann :=
   PTuple [PSubscript (PName "Optional") false
             (PStr """List['int']""" "List['int']"
                (Some (PSubscript (PName "List") false (PStr "'int'" "int" (Some (PName "int"))))));
           PSubscript (PName "Literal") true (PStr "'x'" "x" (Some (PName "x")))].
+Definition env_typing : nenv := [("Literal", "typing.Literal"); ("Optional", "typing.Optional")].
+Definition env_other : nenv := [("Literal", "typing.List")].
 Example ex_ann_rule :
   no_parsed ex_ann = true /\
-  option_map render (build (mkCtx (Parse false) false false false) ex_ann) = Some "(Optional[List['int']], Literal['x'])" /\
-  option_map render (build ctx0 ex_ann) = Some "(Optional[""List['int']""], Literal['x'])".
+  option_map (render fx_none) (build fx_none env_typing pctx ex_ann) = Some "(Optional[List['int']], Literal['x'])" /\
+  option_map (render fx_none) (build fx_none env_other pctx ex_ann) = Some "(Optional[List['int']], Literal[x])" /\
+  option_map (render fx_none) (build fx_none env_typing ctx0 ex_ann) = Some "(Optional[""List['int']""], Literal['x'])".
 Proof. repeat split; reflexivity. Qed.
 
 Example ex_names :
-  option_map (fun g => item_names (iterate true g)) (build ctx0 ex_big)
+  option_map (fun g => item_names (iterate fx_all true g)) (build fx_all [] ctx0 ex_big)
   = Some ["a"; "b"; "c"; "x"; "y"; "a"; "b"; "f"; "c"; "p"; "q"].
+Proof. reflexivity. Qed.
+
+(* ---------- modernize() is the identity in this version ---------- *)
+Lemma modernize_id fx g : render fx (modernize g) = render fx g.
+Proof. reflexivity. Qed.
+
+(* ---------- (T) the precedence table read from expressions.py is the one the model compares with ---------- *)
+Lemma prec_table_sound : forallb (fun p => Nat.eqb (gbinop_prec (fst p)) (snd p)) gen_binop_prec = true.
+Proof. vm_compute. reflexivity. Qed.
+Lemma prec_table_complete :
+  fx_prec tree_fixes = true ->
+  forallb (fun o => existsb (fun p => String.eqb (fst p) (spec_binop o) && Nat.eqb (snd p) (binop_prec o)) gen_binop_prec) all_binops = true.
+Proof. vm_compute. intros H; first [discriminate H | reflexivity]. Qed.
+
+(* ---------- a sequence of builds: what is stored for an expression does not depend on what was built before ---------- *)
+Definition build_seq (fx : fixes) (l : list (nenv * bctx * pyexpr)) : list (option gexpr) :=
+  map (fun x => build fx (fst (fst x)) (snd (fst x)) (snd x)) l.
+Lemma build_seq_independent fx pre env cx e post :
+  nth (List.length pre) (build_seq fx (pre ++ (env, cx, e) :: post)) None = build fx env cx e.
+Proof.
+  unfold build_seq. rewrite map_app. cbn [map]. rewrite app_nth2; rewrite map_length; [|lia].
+  rewrite Nat.sub_diag. reflexivity.
+Qed.
+Example build_seq_example :
+  build_seq fx_all [([], ctx0, PConst "True"); ([], ctx0, PNum false "1.0"); ([], ctx0, PConst "True")]
+  = [Some (GStr "True"); Some (GStr "1.0"); Some (GStr "True")].
 Proof. reflexivity. Qed.
 
 (* ---------- dotted chains keep the parent links that name resolution follows ---------- *)
@@ -106,6 +177,11 @@ Fixpoint chain_names (path : string) (attrs : list string) : list gexpr :=
   | x :: r => GName x (ParName path) :: chain_names (path ++ "." ++ x) r
   end.
 
+Section Chains.
+Variable fx : fixes.
+Variable env : nenv.
+Local Notation build := (C03_expr.build fx env).
+
 Lemma chain_step (m : pmode) (j f : bool) (e : pyexpr) (vs : list gexpr) (path : string) (attrs : list string) :
   build (mkCtx m false j f) e = Some (GAttribute vs) -> gname_path (last vs (GStr "")) = path ->
   build (mkCtx m false j f) (chain_expr e attrs) = Some (GAttribute (vs ++ chain_names path attrs)).
@@ -115,7 +191,7 @@ Proof.
   - cbn [chain_expr chain_names].
     rewrite (IH (PAttribute e x) (vs ++ [GName x (ParName path)]) (path ++ "." ++ x)%string).
     + rewrite <- app_assoc. reflexivity.
-    + cbn [build enter keeps_insub pm insub injoin infmt mapped node_builder]. rewrite Hb. cbn [attach_attr]. rewrite Hp. reflexivity.
+    + cbn [C03_expr.build enter keeps_insub pm insub injoin infmt mapped node_builder]. rewrite Hb. cbn [attach_attr]. rewrite Hp. reflexivity.
     + rewrite last_last. reflexivity.
 Qed.
 
@@ -138,7 +214,26 @@ Proof.
   - reflexivity.
 Qed.
 
+(* ... and the canonical path of the chain is the root's resolution followed by the attribute names *)
+Theorem dotted_chain_canonical (cx : bctx) (r x : string) (attrs : list string) (g : gexpr) :
+  pm cx = NoParse -> build cx (chain_expr (PName r) (x :: attrs)) = Some g ->
+  gcanon env g = Some (fold_left (fun p a => (p ++ "." ++ a)%string) (x :: attrs) (resolve env r)).
+Proof.
+  intros Hm Hb.
+  assert (Hr : rule_ok (fx_litroot fx) (chain_expr (PName r) (x :: attrs)) = true).
+  { generalize (PName r) (x :: attrs) (eq_refl : rule_ok (fx_litroot fx) (PName r) = true).
+    intros e l. revert e. induction l as [|y l IH]; intros e He; [exact He|]. cbn [chain_expr]. apply IH. exact He. }
+  pose proof (canon_of_build fx env _ cx g Hm Hr Hb) as H.
+  assert (Hc : src_canon env (chain_expr (PName r) (x :: attrs)) = Some (fold_left (fun p a => (p ++ "." ++ a)%string) (x :: attrs) (resolve env r))).
+  { assert (Hgen : forall l e p, src_canon env e = Some p -> src_canon env (chain_expr e l) = Some (fold_left (fun p a => (p ++ "." ++ a)%string) l p)).
+    { induction l as [|y l IH]; intros e p He; [exact He|]. cbn [chain_expr fold_left]. apply IH. cbn [src_canon]. rewrite He. reflexivity. }
+    apply Hgen. reflexivity. }
+  rewrite Hc in H. destruct H as [H _]. exact H.
+Qed.
+End Chains.
+
 Example dotted_example :
-  option_map (fun g => map gname_path (match g with GAttribute vs => vs | _ => [] end)) (build ctx0 (chain_expr (PName "a") ["b"; "c"]))
-  = Some ["a"; "a.b"; "a.b.c"].
-Proof. reflexivity. Qed.
+  option_map (fun g => map gname_path (match g with GAttribute vs => vs | _ => [] end)) (build fx_none [] ctx0 (chain_expr (PName "a") ["b"; "c"]))
+  = Some ["a"; "a.b"; "a.b.c"]
+  /\ option_map (gcanon [("t", "typing")]) (build fx_none [("t", "typing")] ctx0 (chain_expr (PName "t") ["Literal"])) = Some (Some "typing.Literal").
+Proof. split; reflexivity. Qed.
